@@ -568,11 +568,16 @@ macro_rules! decode_fields {
 
 impl<'b, C> Decode<'b, C> for core::time::Duration {
     fn decode(d: &mut Decoder<'b>, ctx: &mut C) -> Result<Self, Error> {
+        let pos = d.position();
         decode_fields! { d ctx |
             0 secs  => u64 ; "Duration::secs"
             1 nanos => u32 ; "Duration::nanos"
         }
-        Ok(core::time::Duration::new(secs, nanos))
+        // `Duration::new` panics if the nanoseconds carry over into seconds
+        // and overflow them, so add the two parts with an overflow check.
+        core::time::Duration::from_secs(secs)
+            .checked_add(core::time::Duration::from_nanos(u64::from(nanos)))
+            .ok_or_else(|| Error::message("duration value overflows").at(pos))
     }
 }
 
